@@ -332,6 +332,11 @@ fn accepted_events<F: Fam>(out: &mut Out, origin: &str, bytes: &[u8], want_reenc
                     let (e, rb) = enc::<F>(&p);
                     ev["reenc"] = e;
                     if let Some(rb) = rb {
+                        // re-encoding for forwarding goes through the async encoder into a socket: vectored writes, a
+                        // first write that stops in the middle of the packet, a not-ready answer
+                        let a = crate::codec::enc_async_on::<F>(&p, vec![crate::io::WStep::Accept(rb.len() / 2 + 1), crate::io::WStep::Pending],
+                                                                crate::io::WStep::Accept(usize::MAX), None, true, None);
+                        ev["reenc_async"] = json!({"res": a["res"], "same": a["sink"] == jbytes(&rb)});
                         ev["redec_block"] = dec_block::<F>(&rb);
                         ev["redec_async"] = dec_async::<F>(&rb, usize::MAX);
                         ev["redec_poll"] = dec_poll::<F>(&rb, usize::MAX);
@@ -362,6 +367,9 @@ fn accept_inputs<F: GenFam>(rng: &mut Rng, b: &mut Budget, n: usize, f: &mut dyn
                 f("spelling", &s);
             }
             f("nonminimal-length", &nonminimal_rl(&fr));
+            for s in crate::tokens::nonminimal_proplen(&fr) {
+                f("nonminimal-proplen", &s);
+            }
             if e.len() <= 2000 {
                 let cat = catalogue(&fr, rng);
                 for m in cat.iter().filter(|m| matches!(m.m, "bad_utf8" | "wild_name" | "wild_resp" | "bad_filter" | "pid0" | "rl_long" | "rl_short" | "payload_fmt")) {
@@ -415,6 +423,21 @@ pub fn large_class_frames() -> Vec<(&'static str, &'static str, Vec<u8>, bool)> 
         let mut p = vec![b'a'; n];
         p[32767] = 0xE2; // "€" cut after its first byte, at a block boundary
         payloads.push((p, false));
+    }
+    // payloads that consist of ONE repeated byte that is not text on its own (continuation bytes, lead bytes without
+    // continuation, 0xFF) or of a repeated multi-byte character, in every size class: a block-wise validator that looks
+    // for a character boundary finds none
+    for n in [1usize, 5, 4097, 32769, 40000, 65537] {
+        for b in [0x80u8, 0xBF, 0xC3, 0xE2, 0xF0, 0xFF] {
+            payloads.push((vec![b; n], false));
+        }
+        for ch in ["é", "€", "😀"] {
+            let mut p = ch.repeat(n / ch.len() + 1).into_bytes();
+            p.truncate((n / ch.len()) * ch.len());
+            if !p.is_empty() {
+                payloads.push((p, true));
+            }
+        }
     }
     for (p, ok) in &payloads {
         let mut body = field(b"t");
@@ -649,7 +672,62 @@ pub fn extreme_value_frames() -> Vec<(&'static str, Vec<u8>)> {
 }
 
 /// feed the large-class frames of one family to `f(origin, bytes, malformed)`
+/// frames that combine a leniency of the decoders with a validation that runs over the following bytes, and shared
+/// filters whose share name is so long that the cached separator index needs 8, 15 or 16 bits
+pub fn leniency_frames() -> Vec<(&'static str, &'static str, Vec<u8>)> {
+    use crate::topic::{field, frame, varint};
+    let mut out: Vec<(&'static str, &'static str, Vec<u8>)> = Vec::new();
+    // v5 PUBLISH, Payload Format Indicator = 1, a NON-MINIMAL property length, and a last property whose final byte
+    // cannot start a UTF-8 string (binary correlation data, a multi-byte content type, a topic alias)
+    for last in [vec![0x09u8, 0, 1, 0xFF], vec![0x03, 0, 2, 0xC3, 0xA9], vec![0x23, 0x12, 0x80], vec![0x09, 0, 2, 0x41, 0xBF]] {
+        for payload in [&b"hi"[..], &[b'h', 0xC3, 0xA9, b'l', b'l', b'o'][..], &b""[..]] {
+            let mut props = vec![0x01u8, 0x01];
+            props.extend(&last);
+            for pad in [false, true] {
+                let mut body = field(b"t");
+                let mut l = varint(props.len());
+                if pad {
+                    l[0] |= 0x80;
+                    l.push(0);
+                }
+                body.extend(l);
+                body.extend(&props);
+                body.extend_from_slice(payload);
+                out.push(("v5", "nonminimal-proplen", frame(0x30, &body)));
+            }
+        }
+    }
+    // SUBSCRIBE / UNSUBSCRIBE with `$share/<name>/t` where the share name has 118..124, 246..252, 32 755..32 770 and
+    // 65 524 bytes (separator index around 2^7, 2^8, 2^15 and just below 2^16)
+    let lens: Vec<usize> = (118..=124).chain(246..=252).chain(32755..=32770).chain([65524usize, 65525]).collect();
+    for n in lens {
+        let filt = format!("$share/{}/t", "g".repeat(n));
+        if filt.len() > 65535 {
+            continue;
+        }
+        let mut b3 = vec![0u8, 7];
+        b3.extend(field(filt.as_bytes()));
+        b3.push(1);
+        out.push(("v3", "valid", frame(0x82, &b3)));
+        let mut b5 = vec![0u8, 7, 0];
+        b5.extend(field(filt.as_bytes()));
+        b5.push(1);
+        out.push(("v5", "valid", frame(0x82, &b5)));
+        if n % 3 == 0 {
+            let mut u5 = vec![0u8, 7, 0];
+            u5.extend(field(filt.as_bytes()));
+            out.push(("v5", "valid", frame(0xA2, &u5)));
+        }
+    }
+    out
+}
+
 pub fn large_class_for(fam: &str, f: &mut dyn FnMut(&str, &[u8], bool)) {
+    for (fm, m, bytes) in leniency_frames() {
+        if fm == fam {
+            f(m, &bytes, false);
+        }
+    }
     for (fm, m, bytes, bad) in large_class_frames() {
         if fm == fam {
             f(m, &bytes, bad);
@@ -712,6 +790,13 @@ fn cross_front<F: Fam>(bytes: &[u8], front: &str) -> (J, usize) {
             let pos = r["pos"].as_u64().unwrap_or(0) as usize;
             (r, pos)
         }
+        // a transport that hands over as much as it is asked for (a decoder that reads ahead shows here, not over
+        // one-byte reads)
+        "async-whole" => {
+            let r = dec_async::<F>(bytes, usize::MAX);
+            let pos = r["pos"].as_u64().unwrap_or(0) as usize;
+            (r, pos)
+        }
         "poll" => {
             let r = dec_poll::<F>(bytes, usize::MAX);
             let pos = r["pos"].as_u64().unwrap_or(0) as usize;
@@ -761,8 +846,11 @@ fn cross_event(out: &mut Out, native: &str, frame: &[u8], native_packet: &J) {
     let name_len = ((frame[hd] as usize) << 8) | frame[hd + 1] as usize;
     let after = hd + 2 + name_len + 1;
     let mut fronts = Vec::new();
-    for front in ["block", "async", "poll"] {
-        let (r, pos) = if native == "v5" { cross_front::<V3>(frame, front) } else { cross_front::<V5>(frame, front) };
+    // ("block-prefix": the blocking decoder over a receive buffer that so far holds the frame up to the protocol level
+    //  and nothing more - the family is identified without waiting for the rest of the CONNECT)
+    for front in ["block", "block-prefix", "async", "async-whole", "poll"] {
+        let input = if front == "block-prefix" { &frame[..after.min(frame.len())] } else { frame };
+        let (r, pos) = if native == "v5" { cross_front::<V3>(input, front) } else { cross_front::<V5>(input, front) };
         let proto = r["a"].get(0).and_then(|x| x.as_str()).unwrap_or("").to_string();
         let resume = if r["e"] == "UnexpectedProtocol" { resume_native(native, &proto, frame, after) } else { json!({"k": "none"}) };
         fronts.push(json!({"front": front, "res": r, "pos": pos, "resume": resume}));
